@@ -33,7 +33,7 @@ ASSUMPTIONS = ['a variable whose i/o type is not declared counts as an output (d
 REAL = common.REAL_ALL
 STUBS = common.STUBS_ALL
 ENVELOPE_RULES = ['memory-past-above-delayed (F08) for pastified online monitors']
-PROBES = ['pastified', 'predicate_mixes_input_and_output', 'insensitive_predicate_present', 'sensitive_predicate_present', 'standard_with_declarations',
+PROBES = ['pastified', 'modular_specification', 'predicate_mixes_input_and_output', 'insensitive_predicate_present', 'sensitive_predicate_present', 'standard_with_declarations',
           'vacuity', 'dense_offline', 'dense_online', 'discrete_offline', 'discrete_online', 'predicate_at_equality']
 
 SEMS = ['standard', 'output-robustness', 'input-robustness', 'output-vacuity', 'input-vacuity']
@@ -61,7 +61,45 @@ def gen(rng, tier):
     io = dict((v, rng.choice(['input', 'output', None])) for v in vars_)
     sem = rng.choice(SEMS)
     pastify = mode == 'on' and (any(x[0] in sg.FUTURE_OPS for x in sg.walk(ast)) or rng.random() < 0.1)
-    sc = {'kind': kind, 'mode': mode, 'vars': vars_, 'ast': ast, 'io': io, 'sem': sem, 'pastify': bool(pastify)}
+    modular = None
+    if rng.random() < 0.2:
+        # directed: an arithmetic sub-specification shared by several predicates (the i/o sets of a shared node must not
+        # be polluted by one of its users)
+        def term(d):
+            if d <= 0 or rng.random() < 0.4:
+                return ['var', rng.choice(vars_)]
+            op = rng.choice(['+', '-', '*', 'abs', 'neg'])
+            return [op, term(d - 1)] if op in ('abs', 'neg') else [op, term(d - 1), term(d - 1)]
+        t1 = term(2)
+        if t1[0] == 'var':
+            t1 = ['+', t1, ['var', rng.choice(vars_)]]
+        ref1 = ['ref', 'p1']
+
+        def use():
+            r_ = rng.random()
+            if r_ < 0.3:
+                return ref1
+            op = rng.choice(['+', '-', '*'])
+            other = ['var', rng.choice(vars_)] if rng.random() < 0.7 else ['const', rng.choice(sg.LATTICE)]
+            if r_ < 0.65:
+                return [op, ref1, other]
+            if r_ < 0.9:
+                return [op, other, ref1]
+            return [rng.choice(['abs', 'neg']), ref1]
+        preds = [['pred', rng.choice(sg.CMPS), use(), ['const', rng.choice(sg.LATTICE)]] for _ in range(rng.randint(2, 3))]
+        top = preds[0]
+        for q in preds[1:]:
+            top = [rng.choice(['and', 'or', 'implies']), top, q] if rng.random() < 0.5 else [rng.choice(['and', 'or', 'implies']), q, top]
+        if rng.random() < 0.4:
+            w = rng.choice(['once', 'historically'] + ([] if mode == 'on' else ['always', 'eventually']))
+            top = [w, top]
+        modular = {'defs': [['p1', t1]], 'top': top, 'via': rng.choice(['add_sub_spec', 'text'])}
+        ast = sg.inline(modular['defs'], top)
+        pastify = mode == 'on' and rng.random() < 0.1
+    elif rng.random() < 0.35 and sg.size(ast) >= 4:
+        defs, top = sg.modularize(rng, ast, max_subs=2, prefer_stateful=False)
+        modular = {'defs': defs, 'top': top, 'via': rng.choice(['add_sub_spec', 'text'])}
+    sc = {'kind': kind, 'mode': mode, 'vars': vars_, 'ast': ast, 'io': io, 'sem': sem, 'pastify': bool(pastify), 'modular': modular}
     if dense:
         sc['signals'] = dict((v, world.gen_dense_signal(rng, rng.randint(1, 6), start_q=0, max_gap_q=4)[0]) for v in vars_)
         sc['nbatches'] = rng.randint(1, 3)
@@ -121,6 +159,16 @@ def desc_of(sc, with_io=True, sem=None):
     text = common.dense_text(sc['ast']) if dense else 'out = ' + sg.to_text(sc['ast']) + ';'
     d = {'cls': sc['kind'], 'semantics': sem or sc['sem'], 'vars': common.var_decls(sc['vars']), 'spec': text,
          'pastify': bool(sc.get('pastify')) and sc['mode'] == 'on'}
+    mod = sc.get('modular')
+    if mod:
+        bp = common.dense_bounds if dense else None
+        subs = ['%s = %s;' % (n, sg.to_text(a, None, bp)) for n, a in mod['defs']]
+        top = 'out = ' + sg.to_text(mod['top'], None, bp) + ';'
+        if mod.get('via') == 'text':
+            d['spec'] = '\n'.join(subs) + '\n' + top
+        else:
+            d['subspecs'] = subs
+            d['spec'] = top
     if with_io:
         d['io'] = dict((v, t) for v, t in sc['io'].items() if t)
     return d
@@ -185,6 +233,8 @@ def run(sc):
     h = sg.horizon(ast) if sc.get('pastify') else 0
     if sc.get('pastify'):
         r.probes['pastified'] += 1
+    if sc.get('modular'):
+        r.probes['modular_specification'] += 1
     if dense:
         f = D.from_samples(out) if isinstance(out, list) else None
         s0 = max(sc['signals'][v][0][0] for v in used)
@@ -262,6 +312,11 @@ def run(sc):
 
 def shrinks(sc):
     dense = sc['kind'] == 'ct'
+    if sc.get('modular'):
+        c = copy.deepcopy(sc)
+        c['modular'] = None
+        yield c
+        return      # the formula is only shrunk in inlined form
     for v in sorted(sc['io']):
         if sc['io'][v] is not None:
             c = copy.deepcopy(sc)
